@@ -212,6 +212,8 @@ func c05(ctx *core.Ctx) {
 			// more rounds of concurrent registration; every type registered must be usable afterwards
 			rounds := ctx.N(60, 600)
 			for round := 0; round < rounds; round++ {
+				// the container exists before the types are registered (as the package-level container always does)
+				c := restful.NewContainer()
 				var wg sync.WaitGroup
 				var ready, goFlag int32
 				types := make([]string, 8)
@@ -232,7 +234,6 @@ func c05(ctx *core.Ctx) {
 				}
 				atomic.StoreInt32(&goFlag, 1)
 				wg.Wait()
-				c := restful.NewContainer()
 				ws := new(restful.WebService).Path("/reg")
 				for k, m := range types {
 					ws.Route(ws.GET(fmt.Sprintf("/t%d", k)).Produces(m).To(func(req *restful.Request, resp *restful.Response) {
